@@ -57,7 +57,7 @@ fn main() {
       let nshards: usize = arg(&args, "--nshards").unwrap().parse().unwrap();
       let start: usize = arg(&args, "--start").unwrap().parse().unwrap();
       let fl = arg(&args, "--flavour").unwrap_or("chk");
-      worker_main(prop.as_ref(), tier, seed, shard, nshards, start, arg(&args, "--out").unwrap(), fl, fl == "asan", arg(&args, "--cell"));
+      worker_main(prop.as_ref(), tier, seed, shard, nshards, start, arg(&args, "--out").unwrap(), fl, fl == "asan", arg(&args, "--cell"), arg(&args, "--cases"));
     }
     "replay" => {
       let path = &args[2];
